@@ -612,6 +612,21 @@ def run_objhist(case, out, env, numqi):
     depth = case['depth']
     f2all = ref.all_f2(n)
 
+    def derived(q, eq, name):
+        """an operator returned by an operation is observed through EVERY representation (a result object that shares
+        memoised decode state with its operand is only visible in sign / str_ / matrix, not in F2)"""
+        if cmp_f2(q.F2, eq)[0] is not None:
+            return ('wrong_%s' % name, q.F2)
+        if not _sign_ok(q.sign, eq[0]):
+            return ('wrong_%s_sign' % name, q.sign)
+        if not (isinstance(q.str_, str) and q.str_ == eq[1]):
+            return ('wrong_%s_str' % name, q.str_)
+        if cmp_npl((q.np_list, PH[eq[0]]), eq)[0] is not None:
+            return ('wrong_%s_np_list' % name, None)
+        if n <= 3 and cmp_mat(q.full_matrix, eq)[0] is not None:
+            return ('wrong_%s_full_matrix' % name, q.full_matrix)
+        return None
+
     def step(p, ev, e, f2, hist):
         """returns None or (failure class, observed)"""
         if ev == 'sign':
@@ -636,11 +651,9 @@ def run_objhist(case, out, env, numqi):
             v = len(p)
             return None if v == n else ('wrong_len', v)
         if ev == 'inverse':
-            v = p.inverse().F2
-            return None if cmp_f2(v, elem_inv(e))[0] is None else ('wrong_inverse', v)
+            return derived(p.inverse(), elem_inv(e), 'inverse')
         if ev == 'square':
-            v = (p @ p).F2
-            return None if cmp_f2(v, elem_mul(e, e))[0] is None else ('wrong_square', v)
+            return derived(p @ p, elem_mul(e, e), 'square')
         if ev == 'commute_self':
             v = p.commutate_with(p)
             return None if bool(v) is True else ('wrong_commute', v)
